@@ -233,6 +233,43 @@ def _apply(variant: dict, root: str) -> Optional[str]:
         if r.returncode != 0:
             return "patch does not apply: " + (r.stdout + r.stderr).strip().splitlines()[0][:120]
         return None
+    if variant.get("transform") and variant["transform"][0] in ("rename_all_locals", "invert_all_ifs", "all_returns_via_temp", "all_else_after_return"):
+        # behaviour-preserving: the transform is applied to EVERY top-level function and method of the package
+        import ast as _ast
+        n_funcs = 0
+        rename_locals_ = {"rename_all_locals": rename_locals, "invert_all_ifs": invert_ifs, "all_returns_via_temp": return_via_temp,
+                          "all_else_after_return": else_after_return}[variant["transform"][0]]
+        for dirpath, _dirs, files in os.walk(os.path.join(root, "funsor")):
+            for fn in files:
+                if not fn.endswith(".py"):
+                    continue
+                path = os.path.join(dirpath, fn)
+                with open(path, encoding="utf-8") as f:
+                    src = f.read()
+                tree = _ast.parse(src)
+                quals = []
+                for n in tree.body:
+                    if isinstance(n, _ast.FunctionDef):
+                        quals.append(n.name)
+                    elif isinstance(n, _ast.ClassDef):
+                        quals += [f"{n.name}.{m.name}" for m in n.body if isinstance(m, _ast.FunctionDef)]
+                # functions that share a name (stacked registrations) are renamed only once per name: rename_locals takes the first
+                done = set()
+                for q in quals:
+                    if q in done:
+                        continue
+                    done.add(q)
+                    out = rename_locals_(src, q)
+                    if out is not None:
+                        try:
+                            compile(out, path, "exec")
+                        except SyntaxError:
+                            continue
+                        src = out
+                        n_funcs += 1
+                with open(path, "w", encoding="utf-8") as f:
+                    f.write(src)
+        return None if n_funcs else "no function renamed"
     if variant.get("transform") and variant["transform"][0] == "unparse_package":
         # behaviour-preserving: every module of the package is re-emitted by ast.unparse (comments, layout, line numbers,
         # parenthesisation and string quoting all change; the AST does not)
